@@ -150,9 +150,9 @@ def int_of_cast(c, cell):
 def flt_of_cast(c, cell):
     uni = c.uni
     k = cell.kind
-    pk = ('parse_f64', id(cell.s))
+    pk = ('parse_f64', S.skey(cell.s))
     if pk not in uni.memo:
-        uni.memo[pk] = (uni.fresh('parse_f64_ok', z3.BoolSort()), uni.fresh('parse_f64_val', z3.Float64()), cell.s)
+        uni.memo[pk] = (z3bool(__import__('mirsym.rx', fromlist=['x']).is_match(models_std.F64_GRAMMAR, True, cell.s)), uni.fresh('parse_f64_val', z3.Float64()), cell.s)
     pokay, pval, _ = uni.memo[pk]
     spec = z3.Or(k == K_BOOL, k == K_INT, k == K_UINT, k == K_FLOAT, z3.And(k == K_STRING, pokay))
     val = z3.If(k == K_BOOL, z3.If(cell.b, z3.FPVal(1.0, z3.Float64()), z3.FPVal(0.0, z3.Float64())),
